@@ -104,6 +104,8 @@ def make_source(kind: str, data: bytes, schedule, default, tmpdir: str | None = 
         return faultio.ScheduleRaw(data, schedule, default)
     if kind == "response":
         return faultio.ScheduleResponse(data, schedule, default)
+    if kind == "short-buffered":
+        return faultio.ShortBuffered(data, default or 50_000)
     if kind == "buffered":
         return io.BufferedReader(faultio.ScheduleRaw(data, schedule, default), buffer_size=16)
     if kind == "seekable-buffered":
@@ -259,8 +261,8 @@ def shard(job) -> dict:
                     acc.violation({"source": source, "api": api, "mode": mode},
                                   f"{name} ({api} {mode}): {r}", case)
             if entry.get("file_only"):
-                for source in ("raw", "response", "buffered"):
-                    for default in (None, 65536, 8191):
+                for source in ("raw", "response", "buffered", "short-buffered"):
+                    for default in (None, 65536, 8191, 1000):
                         case = {"corpus": size, "stream": name, "api": api, "mode": mode,
                                 "source": source, "schedule": [], "default": default}
                         acc.evals += 1
@@ -272,7 +274,8 @@ def shard(job) -> dict:
                                           f"{name} ({api} {mode}): {r}", case)
                 continue
             for sched, default in schedules(entry, api, mode, max_dev):
-                for source in ("raw", "buffered", "seekable-buffered", "response"):
+                for source in ("raw", "buffered", "seekable-buffered", "response") + (
+                        ("short-buffered",) if default else ()):
                     case = {"corpus": size, "stream": name, "api": api, "mode": mode,
                             "source": source, "schedule": list(sched), "default": default}
                     acc.evals += 1
